@@ -389,8 +389,8 @@ fn parent(id: &str, rest: &[String]) -> i32 {
                     Err(m2) => {
                         // one report per root-cause signature: the message with the
                         // case-specific digits removed
-                        let key: String = format!("{subn}:{}", m2.chars().filter(|c| !c.is_ascii_hexdigit()).take(80).collect::<String>());
-                        if seen_fail.insert(key) {
+                        let key: String = format!("{subn}:{}", m2.chars().take(20).collect::<String>());
+                        if seen_fail.insert(key) && violations.len() < 4 {
                             let p = write_replay(&vd, id, subn, &f["case"], &m2);
                             violations.push((p, m2));
                         }
